@@ -1,4 +1,4 @@
-import GB.C03.ProofsResolve
+import GB.C03.ProofsPath
 /-
   C03 — property theorems. Theorems only; helper lemmas live in Proofs*.lean.
   `Tmpl` is the parsed template (`gwbased.Parse`, property C20), `Table` the routing table as a list of
@@ -151,6 +151,36 @@ theorem C03_decode_once {ι : Type} (tbl : Table ι) (hwf : ∀ e ∈ tbl, WF e.
   constructor
   · intro h; exact ⟨_, rfl, h⟩
   · rintro ⟨p, hp', h⟩; cases hp'; exact h
+
+/-- The same for absolute-form request targets `scheme://authority/path?query` (authority of the plain
+    `host[:port]` kind): routing runs on the path part of the request line, byte for byte. -/
+theorem C03_decode_once_absolute {ι : Type} (tbl : Table ι) (hwf : ∀ e ∈ tbl, WF e.2.2) (m raw sch rest a q : Bytes)
+    (u : Url) (hsch : getScheme true [] raw = some (some (sch, rest))) (hr : beforeQuery rest = 47 :: 47 :: a)
+    (hq : a.dropWhile (· != 47) = 47 :: q) (hp : parseRequestURI raw = some (some u)) (i : ι) (b : Captures) :
+    routeHTTP (routesOf tbl) m u = .found i b ↔ FirstMatch tbl m (splitSlash q) i b := by
+  unfold routeHTTP
+  rw [pathChoice_parseRequestURI_abs hsch hr hq hp, C03_route_iff tbl hwf]
+
+/-- net/url's default path escaping is undone by exactly one decoding pass, segment by segment:
+    `unescape(escape(s)) = s`, for the matcher's single-segment decoder as well, and `/` is neither escaped nor
+    produced by escaping. -/
+theorem C03_escape_roundtrip (s : Bytes) :
+    urlUnescape (urlEscape s) = some s ∧ decodeOnce false (urlEscape s) = some s ∧
+      splitSlash (urlEscape s) = (splitSlash s).map urlEscape :=
+  ⟨urlUnescape_urlEscape s, decodeOnce_urlEscape s, splitSlash_urlEscape s⟩
+
+/-- Decoded exactly once for hand-built `url.URL{Path: p}` values (no RawPath): `RouteHTTP` routes on
+    `EscapedPath()`, whose segments are the escaped Path segments — so by `C03_escape_roundtrip` every `*` capture is
+    the Path segment itself (escaped once by `EscapedPath`, decoded once by the matcher), and a `**` capture is the
+    `/`-join of the Path segments with RFC 6570 reserved bytes left percent-encoded. -/
+theorem C03_decode_once_path {ι : Type} (tbl : Table ι) (hwf : ∀ e ∈ tbl, WF e.2.2) (m q : Bytes)
+    (i : ι) (b : Captures) :
+    routeHTTP (routesOf tbl) m ⟨47 :: q, []⟩ = .found i b ↔
+      FirstMatch tbl m ((splitSlash q).map urlEscape) i b := by
+  unfold routeHTTP
+  rw [pathChoice_pathOnly (47 :: q) (by intro e; cases e), urlEscape_cons]
+  simp only [urlShouldEscape_slash, Bool.false_eq_true, ↓reduceIte]
+  rw [C03_route_iff tbl hwf, splitSlash_urlEscape]
 
 /-- Hand-built URLs as the repo's tests use them (`url.URL{RawPath: x}`) are routed on `x` itself. -/
 theorem C03_rawpath_first (x path : Bytes) (hx : x ≠ []) : pathChoice ⟨path, x⟩ = x := by
